@@ -6,9 +6,11 @@ RULE = ("client streams of framed commands (QUERY/PREPARE payloads of letters, P
         "M in {1,2,3,5} with EVERY composition of the command bytes into reads (exhaustive up to the stated "
         "stream length), at M in {8,255} with payload lengths k*M+d (k<=3, d in -2..2) under 1-byte, header-splitting, "
         "command-spanning, single-read and random chunkings, and at the real limit 2^24-1 with payloads of "
-        "M-1, M, M+1, 2M, 2M+1 bytes (implementation vs specification only); non-trivial = the stream contains a "
+        "M-1, M, M+1, 2M, 2M+1 bytes (implementation vs specification only); plus buffer-boundary streams at the real limit: "
+        "with e in {0,1,100,2048,3000,4096} bytes pending, one read of exactly max(4096,2e)-e (+-1) bytes that completes the pending "
+        "command(s), as one command or many, after which the peer is silent; non-trivial = the stream contains a "
         "multi-packet command or a read boundary inside a header or spanning two commands; distinct = distinct case text")
-ASSUMPTIONS = ["reads offered to the transport are never larger than 2048 bytes (always fits PacketConn's buffer)",
+ASSUMPTIONS = ["apart from the buffer-boundary cases, reads offered to the transport are never larger than 2048 bytes",
                "real-limit cases are checked against the specification oracle only (the model runs at small M; the theorems are parametric in M)"]
 
 
@@ -110,6 +112,45 @@ def gen(ctx):
     return cases
 
 
+def gen_fill(ctx):
+    """reads that exactly fill the spare capacity PacketConn::next offers (max(4096, 2*pending) - pending)
+    and complete the pending commands, plus the neighbouring sizes; the peer then sends nothing more"""
+    rng = ctx.rng
+    cases = []
+    n = 0
+    hs_len = len(frame(hs41(b"jon"), 1, U24_MAX))
+    for e in (0, 1, 100, 2048, 3000, 4096):
+        cap = max(4096, 2 * e) - e
+        for delta in (-1, 0, 1):
+            for shape in ("one", "many"):
+                for with_hs in ((False, True) if e == 0 else (False,)):
+                    total = e + cap + delta - (hs_len if with_hs else 0)
+                    if shape == "one":
+                        pl = [b"\x03" + bytes(rng.choice(b"abcdefgh") for _ in range(total - 5))]
+                    else:
+                        pl, left = [], total
+                        while left > 0:
+                            k = left if left < 30 else rng.randint(5, 24)
+                            if left - k in (1, 2, 3, 4):
+                                k = left
+                            pl.append(b"\x03" + bytes(rng.choice(b"abcdefgh") for _ in range(k - 5)) if k > 5 else b"\x0e" * (k - 4))
+                            left -= k
+                        pl = [x for x in pl if x]
+                    n += 1
+                    c = mk_case("c01_fill_%d" % n, [({3: "query", 0x0e: "ping"}[x[0]], x, 0) for x in pl], [])
+                    st = c.meta["stream"]
+                    assert len(st) == hs_len + total, (len(st), hs_len, total)
+                    if with_hs:
+                        c.reads = ["d:" + hexspec(st)]
+                    else:
+                        c.reads = ["d:" + hexspec(st[:hs_len])]
+                        if e:
+                            c.reads.append("d:" + hexspec(st[hs_len:hs_len + e]))
+                        c.reads.append("d:" + hexspec(st[hs_len + e:]))
+                    cases.append(c)
+    return cases
+
+
 def gen_real(ctx):
     cases = []
     M = U24_MAX
@@ -135,6 +176,6 @@ def nontrivial(case, obs):
 
 
 def run(ctx):
-    cases = gen(ctx)
+    cases = gen(ctx) + gen_fill(ctx)
     ctx.diff_conn(cases, nontrivial=nontrivial, oracle=oracle, classify=classify)
     ctx.impl_only(gen_real(ctx), oracle=oracle, nontrivial=nontrivial, classify=classify, tag="C01real")
